@@ -29,7 +29,7 @@ ASSUMPTIONS = [
     'the application default `Attribute.caching = True` (env.cache.attributes) is in force',
 ]
 TRUSTED_EXTRA = [
-    'harness/cacherig.py observes the real code through wrappers around AttributeCollection.unpack, Attribute.klass, Capability.klass that call the originals; "fresh process" = a brand-new interpreter (python -S) per job, whose step 0 is decoded before anything else',
+    'harness/cacherig.py observes the real code through wrappers around AttributeCollection.unpack, Attribute.klass, Capability.klass that call the originals; "fresh process" = a process of its own per job, forked from a zygote interpreter (python -S) that imported what a worker imports and never decodes anything itself (VERIF_C19_EXEC=1: a brand-new interpreter per job instead); step 0 of the job is decoded before anything else',
 ]
 PROP = 'C19'
 REAL_CODES_MAX = 0xFF00
@@ -748,7 +748,7 @@ def _run(ctx: Ctx, rng, quick: bool, wpool: 'R.Pool') -> None:
     run = Runner(wpool)
     ctx.rule = (
         'sequences of real UPDATE / OPEN / NOTIFICATION / ROUTE-REFRESH / KEEPALIVE / End-of-RIB messages over 9 session shapes (asn4 on/off, ADD-PATH on/off, AIGP on/off, '
-        'ipv4-only / ipv4+ipv6 / all families, eBGP / iBGP), each sequence decoded in order in a brand-new interpreter, sessions established (two real OPENs) when their first message arrives; '
+        'ipv4-only / ipv4+ipv6 / all families, eBGP / iBGP), each sequence decoded in order in a process of its own (forked from a zygote that only imported), sessions established (two real OPENs) when their first message arrives; '
         'step 0 of a job is the fresh-process decode of its message. A sequence is non-trivial when at least one attribute block was served from the process-wide cache, '
         'at least one was parsed and stored, messages of at least two session shapes occur and every step has its fresh-process twin; '
         'distinct = distinct (shape, message) sequence with messages renamed by first appearance'
